@@ -24,9 +24,14 @@ FLAGSETS = [[], ["-a"], ["-a", "-zip"], ["-a", "-no_lexer"], ["-a", "-debug_lexe
             ["-a", "-zip", "-debug_lexer", "-debug_parser", "-v"], ["-a", "-o", "out/sub"], ["-a", "-p", "x/custom/pkg"], ["-zip", "-v"]]
 
 
-def hostile_grammar(rng):
+def hostile_grammar(rng, idx=None):
     nlit = rng.randint(1, 4)
     lits = rng.sample(HOSTILE_LITS, nlit)
+    if idx is not None:
+        # every hostile spelling is exercised in every run, whatever the seed
+        forced = HOSTILE_LITS[idx % len(HOSTILE_LITS)]
+        if forced not in lits:
+            lits.append(forced)
     ids = rng.sample(HOSTILE_IDS, rng.randint(1, 3))
     lex = ["!ws : ' ' | '\\t' | '\\n' ;"]
     for t in ids:
@@ -92,11 +97,11 @@ def run(ctx):
     rng = ctx.rng
     ws = gen.Workspace(ctx)
     jobs = []
-    n_well = 24 if not thorough else 400
+    n_well = 30 if not thorough else 400
     n_mut = 90 if not thorough else 3000
     for i in range(n_well):
-        text = hostile_grammar(rng).encode()
-        jobs.append(("well%d" % i, text, rng.choice(FLAGSETS), True))
+        text = hostile_grammar(rng, i).encode()
+        jobs.append(("well%d" % i, text, FLAGSETS[i % len(FLAGSETS)] if i >= len(HOSTILE_LITS) else rng.choice([[], ["-a"], ["-a", "-v"]]), True))
     for i in range(n_mut):
         base = hostile_grammar(rng).encode() if rng.random() < 0.5 else (cfggen.lex_part(cfggen.family(i)) + c10.syntax_text(cfggen.family(i))).encode()
         jobs.append(("mut%d" % i, mutate_bytes(base, rng), rng.choice(FLAGSETS), False))
